@@ -2,6 +2,7 @@ package props
 
 import (
 	"bufio"
+	"bytes"
 	"errors"
 	"fmt"
 	"io"
@@ -20,7 +21,48 @@ import (
 
 func c06Frame(c *sim.Ctx) (frame []byte, what string) {
 	t := c.T
-	switch t.Pick(5, 3, 2, 3, 2, 2, 2) {
+	switch t.Pick(5, 3, 2, 3, 2, 2, 2, 1) {
+	case 7:
+		// a valid frame whose remaining length is EXACTLY a size buffers tend to have
+		// (a cache line .. a jumbo frame, an Ethernet MTU with and without headers,
+		// powers of two): acknowledgements, CONNACK, DISCONNECT, AUTH padded with a user
+		// property, PUBLISH with its payload
+		size := []int{64, 128, 256, 512, 576, 1024, 1280, 1400, 1452, 1460, 1472, 1480, 1492, 1500, 2048, 4096, 8192, 9000, 16384, 32768, 65535, 65536}[t.Int(22)]
+		typ := []byte{ref.PubAck, ref.PubRec, ref.PubRel, ref.PubComp, ref.ConnAck, ref.Disconnect, ref.Auth, ref.SubAck, ref.UnsubAck, ref.Publish}[t.Int(10)]
+		a := &ref.AP{Type: typ, Flags: ref.ReservedFlags(typ), PacketID: uint16(1 + t.Int(65535)), Form: 2}
+		switch typ {
+		case ref.Publish:
+			a.Flags, a.PacketID, a.Topic = 0, 0, []byte("t/x")
+		case ref.SubAck, ref.UnsubAck:
+			a.Codes = []byte{0}
+		case ref.PubAck, ref.PubRec:
+			a.Reason = 0x10
+		case ref.PubRel, ref.PubComp:
+			a.Reason = 0x92
+		}
+		pad := size
+		for round := 0; round < 4; round++ {
+			if pad < 0 {
+				break
+			}
+			fill := bytes.Repeat([]byte("p"), pad)
+			if typ == ref.Publish {
+				a.Payload = fill
+			} else if pad <= 65535 {
+				a.Props = []ref.Prop{{ID: 0x26, K: []byte("k"), V: fill}}
+			} else {
+				a.Props = []ref.Prop{{ID: 0x26, K: []byte("k"), V: fill[:65535]}, {ID: 0x26, K: []byte("k"), V: fill[65535:]}}
+			}
+			f, _ := ref.Encode(a)
+			_, body, _, err := ref.SplitFrame(f)
+			if err != nil {
+				break
+			}
+			if len(body) == size {
+				return f, fmt.Sprintf("remaining-length-exactly-%d", size)
+			}
+			pad += size - len(body)
+		}
 	case 6: // valid body behind a NON-MINIMAL remaining length (1..2 extra continuation bytes)
 		cfg := specCfg(c)
 		cfg.NoHuge = true
